@@ -103,16 +103,21 @@ class _Runner(_Processor):
     ) -> None:
         async for key, payload, params in consumer:
             actor = actors[key.topic]
-            if self._limiter.locked():
-                await consumer.pause()
-                await self._limiter.acquire()
-                await consumer.unpause()
-            else:
-                await self._limiter.acquire()
+            try:
+                if self._limiter.locked():
+                    await consumer.pause()
+                    await self._limiter.acquire()
+                    await consumer.unpause()
+                else:
+                    await self._limiter.acquire()
+            except asyncio.CancelledError:
+                # stopped while waiting for a free slot: hand the message back, it was never started
+                await asyncio.shield(self._conn.message_broker.reject(key))
+                raise
             if self.max_tasks_exceeded:
                 # the limit was reached by another queue's consumer in the meantime
                 self._limiter.release()
-                await self._conn.message_broker.reject(key)
+                await asyncio.shield(self._conn.message_broker.reject(key))
                 break
             t = asyncio.create_task(self._process_with_event(actor, key, payload, params))
             self._tasks.add(t)
